@@ -3,6 +3,7 @@ import DarkluaModel.C07.Model
 import DarkluaModel.C07.Cover
 import DarkluaModel.Rules.EvaluatorFloat
 import DarkluaModel.C06.CompoundGuardDef
+import DarkluaModel.Rules.RemoveContinuePost
 /-!
 Line-protocol handlers for properties C06 and C07 (the Luau-lowering rules).
 
@@ -10,6 +11,8 @@ Line-protocol handlers for properties C06 and C07 (the Luau-lowering rules).
 * `c06.rule <rule-name x-hex> <block>` → the transformed block (`remove_if_expression` consults the
   Lean model of the static evaluator, `Rules/Evaluator.lean`; an optional third argument is ignored).
 * `c06.all <block> [(<expr>*)]` → all nine rules in the order of `C07.lowerAll`
+* `c06.posthyp <block>` → hypothesis under which `remove_continue:post` (the loop-by-loop model) is compared
+  with the real rule
 * `c06.guard <block>` → the decidable guard of the whole-rule theorem `compound_partial` (`Compound.gB`)
 * `c06.census <name> <block>` → the feature census (`<name>` = a rule name, or `luau` for all)
 * `c06.wf <block>` → `true`/`false`: the tree is one darklua's AST can express
@@ -32,6 +35,7 @@ def applyRule (name : String) (truthy : Expr → Bool) (b : Block) : Option Bloc
   match name with
   | "remove_compound_assignment" => some (RemoveCompoundAssign.apply b)
   | "remove_continue" => some (RemoveContinue.apply b)
+  | "remove_continue:post" => some (RemoveContinuePost.apply b)
   | "remove_if_expression" => some (RemoveIfExpression.apply truthy b)
   | "remove_interpolated_string" => some (RemoveInterpolatedString.apply b)
   | "remove_interpolated_string:tostring" => some (RemoveInterpolatedString.applyWith .tostring b)
@@ -149,6 +153,11 @@ def handle (op : String) (args : List String) : String :=
     -- the decidable guard of `compound_partial` (`Compound.gB_sound`)
     match Block.ofSexp? block with
     | some b => toString (Compound.gB b)
+    | none => "bad-request"
+  | "posthyp", some [block] =>
+    -- where the post-order model of remove_continue is claimed to agree with the hook-by-hook model
+    match Block.ofSexp? block with
+    | some b => toString (C07.continueInLoops b && RemoveContinuePost.nrcB b)
     | none => "bad-request"
   | "hyp", some [name, block] =>
     match nameOfSexp? name, Block.ofSexp? block with
